@@ -32,6 +32,7 @@ func Root(m map[string]int, ch chan int) error {
 		keys = append(keys, k)
 	}
 	sort.Strings(keys)
+	sort.Slice(keys, func(i, j int) bool { return len(keys[i]) < len(keys[j]) }) // unstable sort: must be reported
 	MustThing()
 	Guarded()
 	Keeper{&cache{}}.Touch()
